@@ -99,6 +99,13 @@ pub mod log_specification {
     //@   ret r
     //@   props C02
     //@   ens[LogSpecBuilder::default.post] r.map() == old(self).map().insert(None, lf)
+    //@ fn src/log_specification.rs impl LogSpecBuilder / fn from_module_filters
+    //@   ret r
+    //@   props C02
+    //@   loop 1 iter it
+    //@   loop 1 inv[from_module_filters.loop] forall|k: Option<String>| modfilmap@.dom().contains(k) <==> (exists|j: int| 0 <= j < it.index@ && (#[trigger] it.seq()[j]).module_name == k)
+    //@   loop 1 inv[from_module_filters.loop.seq] it.seq().len() == module_filters@.len() && (forall|j: int| #![trigger it.seq()[j]] #![trigger module_filters@[j]] 0 <= j < it.seq().len() ==> *it.seq()[j] == module_filters@[j])
+    //@   ens[LogSpecBuilder::from_module_filters.post.keys] forall|k: Option<String>| r.map().dom().contains(k) <==> (exists|j: int| 0 <= j < module_filters@.len() && (#[trigger] module_filters@[j]).module_name == k)
     //@ fn src/log_specification.rs impl LogSpecBuilder / fn module
     //@   ret r
     //@   props C02
